@@ -83,6 +83,22 @@ for i := 0; i < 3; i++ {
 	t.v = tr.V(2, t.v*3)
 }
 RETNIL`),
+		Raw("fx-return-non-nil-expression-evaluated-when-reached", `
+func §other(n int) ITER[int] GEN[int]{
+	tr.E(100 + n)
+	YIELD(n)
+	RETNIL
+}GEN
+func §gen() ITER[int] GEN[int]{
+	YIELD(1)
+	if tr.B(1) {
+		tr.E(2)
+		RETX<<§other(tr.V(3, 7))>>RETX
+	}
+	YIELD(2)
+	RETX<<§other(tr.V(4, 8))>>RETX
+}GEN
+`+StdEntry, "return-expr"),
 		G("fx-switch-init-and-tag-evaluated-once", `
 for i := 0; i < 2; i++ {
 	switch x := tr.V(1, i); tr.V(2, x) {
